@@ -65,6 +65,9 @@ func busyReason(g GoroutineInfo) string {
 	ours := strings.Contains(g.Body, sutPath) || strings.Contains(g.Body, harnessPath)
 	switch g.State {
 	case "syscall", "sleep", "IO wait":
+		if strings.Contains(g.Body, "os/exec.") {
+			return g.State // waiting for a real child process (env_cmds, shutdown commands, exec probes)
+		}
 		if !ours {
 			return ""
 		}
